@@ -295,6 +295,9 @@ def long_programs(rng, tier="quick"):
             tok("auipc", 10, 0, 0, 0x7FFFF), tok("beq", 0, 0, 0, 8), tok("addi", 10, 0, 0, 2), tok("jalr", 1, 1, 0, 24), tok("addi", 10, 0, 0, 3),
             tok("auipc", 17, 0, 0, 3), tok("sw", 0, 2, 5, 0), tok("sw", 0, 2, 6, 4), tok("sw", 0, 2, 17, 8)]
     yield prog + tail, {2: DATA, 5: 0xFFFFFF00}
+    # the largest program the instruction memory holds: 4096 instructions, the pc runs up to the end of the address range
+    yield [tok("addi", 5, 5, 0, 1)] * 4090 + [tok("auipc", 6, 0, 0, 0), tok("sw", 0, 2, 6, 0), tok("jal", 1, 0, 0, 8, 4 * 4092 + 8), tok("addi", 5, 0, 0, 0),
+                                             tok("lw", 7, 2, 0, 0), tok("add", 10, 5, 7)], {2: DATA}
     # the SAME instruction objects executed several times: a loop over one instruction of every kind
     body = [tok("auipc", 5, 0, 0, 1), tok("lui", 7, 0, 0, 0x12345), tok("add", 10, 10, 5), tok("sub", 10, 10, 7), tok("slli", 1, 10, 0, 3), tok("srai", 1, 1, 0, 2),
             tok("xori", 1, 1, 0, -1), tok("sw", 0, 2, 1, 0), tok("lh", 17, 2, 0, 2), tok("lbu", 17, 2, 0, 1), tok("mul", 10, 10, 17), tok("divu", 17, 10, 6),
